@@ -206,6 +206,13 @@ impl Property for C08 {
                     lcur = ln;
                     rcur = rn;
                 }
+                // the explicit constructors serialise like the derived keys
+                {
+                    let built = lib_call("ExtendedPrivateKey::new", || ExtendedPrivateKey::new(&lcur.get_private_key(), &lcur.get_chain_code(), &lcur.get_depth(), &lcur.get_index(), Some(&lcur.get_parent_fingerprint())))?;
+                    compare_priv(&built, &rcur, "xprv_new")?;
+                    let builtp = lib_call("ExtendedPublicKey::new", || ExtendedPublicKey::new(&lcur.get_public_key(), &lcur.get_chain_code(), &lcur.get_depth(), &lcur.get_index(), Some(&lcur.get_parent_fingerprint())))?;
+                    compare_pub(&builtp, &rcur, "xpub_new")?;
+                }
                 // whole path as text
                 let text = render(path, *style);
                 let by_text = lib_call("derive_from_path", || ExtendedPrivateKey::from_seed(&sd).unwrap().derive_from_path(&text))?.map_err(|e| failure("derive_from_path", format!("Err({}) for {:?}", e, text), "Ok"))?;
